@@ -534,7 +534,7 @@ try:
     # get_table_indexes / get_table_btree_indexes yield ["c"] or nothing (three combinations), every row holds a symbolic value under
     # "c", the update sets "c" to a symbolic new value, Row::get_with_id is a stub answering from the row's values.
     ck.declare('U3_indexes_follow_every_changed_row', 'tx_update / tx_delete on 1..2 rows with column c indexed by a hash index, an ordered index or both; values symbolic',
-               'for every matching row and every index kind on c: update => remove(old value, row) and add(new value, row); delete => remove(old value, row); the undo record lists the same changes; no index call for a row that does not match')
+               'for every matching row and every index kind on c: update => remove(old value, row) and then add(new value, row); delete => remove(old value, row); the undo record lists the same changes; no index call for a row that does not match')
 
     def _u3_get_with_id(c):
         row, col = _deref(c.st, c.args[0]), _deref(c.st, c.args[1])
@@ -616,6 +616,15 @@ try:
                         cs += [z3.Implies(matches[k], called(kind, val, rowids[k])) for kind, val in want]
                         n_expected.append(z3.If(matches[k], z3.BitVecVal(len(want), 64), z3.BitVecVal(0, 64)))
                     cs.append(z3.BitVecVal(len(calls), 64) == sum(n_expected, z3.BitVecVal(0, 64)))
+                    # per row and index kind the old value is removed BEFORE the new one is added (when the two values are
+                    # equal - an update that assigns a value the row already holds - the other order leaves the row out)
+                    for pre_, post_ in (('index_remove', 'index_add'), ('btree_remove', 'btree_add')):
+                        for ia, (ka, aa) in enumerate(calls):
+                            if ka != post_ or len(aa) != 4:
+                                continue
+                            for ib, (kb, ab) in enumerate(calls):
+                                if kb == pre_ and len(ab) == 4 and ib > ia:
+                                    cs.append(aa[3].v != ab[3].v)
                     ck.require(ex, 'U3_indexes_follow_every_changed_row', r.pc, None, z3.And(cs), wit, lambda m, w: 'index-not-maintained')
     if u3_seen == 0:
         ck.inconclusive.append('U3 vacuous: no statement succeeded')
